@@ -12,6 +12,9 @@
 //   gds/oas : simple path saved as PATH record and read back (F14)
 //   probe   : intersection search with small max_evals (hang candidate), max_evals = 1
 // Payloads start with g=<seed>:<index>; a replay regenerates exactly that path.
+// Grid: doubles are multiplied by 2^30 (exact) and rounded to the nearest integer (error <= 2^-31 per coordinate,
+// five orders of magnitude below the guard bands, which are multiples of the path tolerance >= 1e-3).
+// Debug aid: C08_TRACE=1 prints the sections of a replayed path to stderr.
 #include <algorithm>
 #include <cmath>
 #include <gdstk/gdstk.hpp>
@@ -258,8 +261,9 @@ static void one_call(Builder& B, bool allow_corner) {
     } else if (kind == 4) {
         double r = (5 + (double)g.below(5)) * W, ang = ((double)g.range(20, 100)) * M_PI / 180 * (g.coin() ? 1 : -1);
         double a0 = h + (ang < 0 ? 0.5 * M_PI : -0.5 * M_PI);
-        rp.arc(r, r, a0, a0 + ang, 0, wp, op);
-        B.desc += "arc ";
+        double ry = g.chance(30) ? r * (0.9 + 0.2 * (double)g.below(101) / 100.0) : r;
+        rp.arc(r, ry, a0, a0 + ang, 0, wp, op);
+        B.desc += ry == r ? "arc " : "elliptical-arc ";
     } else if (kind == 5) {
         rp.cubic(P(d / 3, 0), P(2 * d / 3, e / 2), P(d, e), wp, op, rel);
         B.desc += "cubic ";
